@@ -452,3 +452,49 @@ pub fn drive(mut rep: crate::common::evidence::Report, jobs: Vec<Box<dyn AnyJob>
     }
     rep.finish()
 }
+
+// ---------------------------------------------------------------------------------------------
+// Flat case lists (one-level tree): structured worlds / boundary families that are enumerated
+// completely from a generated list.
+
+pub struct CaseSpace<C: Send + Sync + 'static> {
+    pub label: String,
+    pub cases: Vec<C>,
+    pub check_fn: Box<dyn Fn(&C) -> Outcome + Send + Sync>,
+    pub describe_fn: Box<dyn Fn(&C) -> Value + Send + Sync>,
+}
+
+impl<C: Send + Sync + 'static> Space for CaseSpace<C> {
+    type State = u32;
+    fn name(&self) -> String {
+        self.label.clone()
+    }
+    fn init(&self) -> Vec<u32> {
+        vec![u32::MAX]
+    }
+    fn next(&self, s: &u32, out: &mut Vec<u32>) {
+        if *s == u32::MAX {
+            out.extend(0..self.cases.len() as u32);
+        }
+    }
+    fn check(&self, s: &u32) -> Outcome {
+        if *s == u32::MAX {
+            return Outcome::new();
+        }
+        (self.check_fn)(&self.cases[*s as usize])
+    }
+    fn describe(&self, s: &u32) -> Value {
+        if *s == u32::MAX {
+            return json!({"case_index": null});
+        }
+        json!({"case_index": s, "case": (self.describe_fn)(&self.cases[*s as usize])})
+    }
+    fn parse(&self, v: &Value) -> Option<u32> {
+        let i = v["case_index"].as_u64()? as u32;
+        if (i as usize) < self.cases.len() {
+            Some(i)
+        } else {
+            None
+        }
+    }
+}
